@@ -19,7 +19,7 @@ func (p *prop) Generate(rng *core.Rand, tier string, emit func(string)) {
 	nSort, nSite, nMut, nGram, nRaw, nLeak := 30000, 2500, 6000, 3000, 1500, 300
 	switch tier {
 	case "thorough":
-		nSort, nSite, nMut, nGram, nRaw, nLeak = 200000, 8000, 30000, 12000, 5000, 600
+		nSort, nSite, nMut, nGram, nRaw, nLeak = 300000, 25000, 90000, 40000, 20000, 2000
 	case "search":
 		nSort, nSite, nMut, nGram, nRaw, nLeak = 30000, 2000, 5000, 2500, 800, 150
 	}
